@@ -47,6 +47,7 @@ type vC04Sys struct {
 	seen    map[string]bool // fields ever indexed in this history
 	nAdd    int
 	maxDocs int
+	docs    []map[string]interface{} // document alphabet (nil = vC04Docs)
 	qs      []vC04Query
 }
 
@@ -57,6 +58,9 @@ type vC04Query struct {
 }
 
 func (s *vC04Sys) Reset() {
+	if s.docs == nil {
+		s.docs = vC04Docs
+	}
 	s.idx = NewRoaringMetadataIndex()
 	s.live = map[uint32]int{}
 	s.rem = map[uint32]bool{}
@@ -67,7 +71,7 @@ func (s *vC04Sys) Reset() {
 func (s *vC04Sys) Enabled() []vOp {
 	var ops []vOp
 	if s.nAdd < s.maxDocs {
-		for di := range vC04Docs {
+		for di := range s.docs {
 			ops = append(ops, vOp{K: "Add", A: s.nAdd + 1, B: di})
 		}
 	}
@@ -87,14 +91,14 @@ func (s *vC04Sys) Apply(op vOp, hist []vOp, check bool) {
 	switch op.K {
 	case "Add":
 		s.nAdd++
-		if err := s.idx.Add(*NewMetadataNodeWithID(uint32(op.A), vCloneMeta(vC04Docs[op.B]))); err != nil {
+		if err := s.idx.Add(*NewMetadataNodeWithID(uint32(op.A), vCloneMeta(s.docs[op.B]))); err != nil {
 			if check {
 				s.c.Violation("add-failed", "", s.cfgS, h(), err.Error())
 			}
 			break
 		}
 		s.live[uint32(op.A)] = op.B
-		for k := range vC04Docs[op.B] {
+		for k := range s.docs[op.B] {
 			s.seen[k] = true
 		}
 	case "Remove":
@@ -118,7 +122,7 @@ func (s *vC04Sys) eval(f Filter) (set map[uint32]bool, judged bool, tag string) 
 	set = map[uint32]bool{}
 	ft := vC04FieldType[f.Field]
 	has := func(id uint32) (interface{}, bool) {
-		v, ok := vC04Docs[s.live[id]][f.Field]
+		v, ok := s.docs[s.live[id]][f.Field]
 		return v, ok
 	}
 	switch f.Operator {
@@ -341,7 +345,7 @@ func (s *vC04Sys) observe(h []string) {
 			for id := range s.live {
 				if ft == 'I' || ft == 'F' {
 					if f.Operator != OpExists && f.Operator != OpNotExists {
-						if _, ok := vC04Docs[s.live[id]][f.Field]; !ok {
+						if _, ok := s.docs[s.live[id]][f.Field]; !ok {
 							continue
 						}
 					}
@@ -555,6 +559,56 @@ func (s *vC04Sys) Key() string {
 	return sb.String()
 }
 
+// vC04Sweep: for every n in 1..maxN, n structured documents (every third removed),
+// full filter alphabet and trees after each phase.
+func vC04Sweep(c *vCtx, maxN int) {
+	for n := 1; n <= maxN; n++ {
+		if c.Expired() {
+			c.Bound = fmt.Sprintf("sweep sizes 1..%d", n-1)
+			return
+		}
+		docs := make([]map[string]interface{}, n+1)
+		for i := range docs {
+			d := map[string]interface{}{}
+			if i%4 != 3 {
+				d["s"] = []string{"x", "y", "", "x:y"}[i%4]
+			}
+			if i%3 != 1 {
+				d["i"] = (i*5)%13 + i/13
+			}
+			if i%5 != 4 {
+				d["f"] = float64(i%7) * 0.29
+			}
+			if i%2 == 0 {
+				d["b"] = i%4 == 0
+			}
+			if len(d) == 0 {
+				d["s"] = "y"
+			}
+			docs[i] = d
+		}
+		s := &vC04Sys{c: c, cfgS: fmt.Sprintf("metadata sweep n=%d", n), maxDocs: n + 1, docs: docs}
+		s.Reset()
+		var hist []vOp
+		ap := func(op vOp, check bool) {
+			s.Apply(op, hist, check)
+			hist = append(hist, op)
+			c.Transitions++
+		}
+		for i := 0; i < n; i++ {
+			ap(vOp{K: "Add", A: i + 1, B: i}, i == n-1)
+		}
+		for i := 2; i < n; i += 3 {
+			ap(vOp{K: "Remove", A: i + 1}, i+3 >= n)
+		}
+		ap(vOp{K: "Add", A: n + 1, B: n}, true)
+		c.Traces++
+		c.NewState(s.cfgS)
+	}
+	c.Sample(fmt.Sprintf("n structured documents, every third removed, one more add; every n in 1..%d", maxN))
+	c.Bound = fmt.Sprintf("sweep sizes 1..%d", maxN)
+}
+
 func init() {
 	vRegister(&vCheck{
 		ID: "C04", Level: "model_checking", Engine: "histmc",
@@ -574,9 +628,21 @@ func init() {
 					vBFSFrom(c, s, 2*maxDocs, []vOp{{K: "Add", A: 1, B: d0}})
 				}})
 			}
+			maxN := 70
+			if tier == "thorough" {
+				maxN = 300
+			}
+			sh = append(sh, vShard{Name: "meta/sweep", Run: func(c *vCtx) { vC04Sweep(c, maxN) }})
 			return sh
 		},
 		Replay: func(c *vCtx, v *vViolation) bool {
+			if strings.HasPrefix(v.Config, "metadata sweep n=") {
+				var n int
+				fmt.Sscanf(v.Config, "metadata sweep n=%d", &n)
+				vC04Sweep(c, n)
+				_, ok := c.viol[v.Sig()]
+				return ok
+			}
 			var md, first int
 			fmt.Sscanf(v.Config, "metadata maxDocs=%d first=%d", &md, &first)
 			vReplayHist(&vC04Sys{c: c, cfgS: v.Config, maxDocs: md}, v.History)
